@@ -341,6 +341,7 @@ func (c *Ctx) RuleIsoGlobal(commands ...string) *Result {
 		sort.Slice(fns, func(i, j int) bool { return load.FnName(fns[i]) < load.FnName(fns[j]) })
 		byGlobal := map[*ssa.Global][]ssa.Instruction{}
 		var globals []*ssa.Global
+		stateful := map[*ssa.Global]bool{} // buffered readers / writers / buffers kept in a package variable
 		for _, fn := range fns {
 			allInstrs(fn, func(in ssa.Instruction) {
 				var addr ssa.Value
@@ -353,6 +354,21 @@ func (c *Ctx) RuleIsoGlobal(commands ...string) *Result {
 					}
 				case *ssa.Call:
 					// the address of a package variable handed to a function that writes through it
+					// a stateful object of the standard library kept in a package variable and used in per-file code
+					if f := staticCallee(&x.Call); f != nil && statefulStdlibMethod(f) && len(x.Call.Args) > 0 {
+						recv := x.Call.Args[0]
+						if ld, ok := recv.(*ssa.UnOp); ok && ld.Op == token.MUL {
+							recv = ld.X
+						}
+						if gl := rootGlobal(recv); gl != nil && load.InModule(gl.Pkg.Pkg.Path()) {
+							if _, ok := byGlobal[gl]; !ok {
+								globals = append(globals, gl)
+							}
+							byGlobal[gl] = append(byGlobal[gl], in)
+							stateful[gl] = true
+						}
+						return
+					}
 					sf := staticFn(&x.Call)
 					if sf == nil || !c.P.IsRepoFn(sf) {
 						return
@@ -388,6 +404,14 @@ func (c *Ctx) RuleIsoGlobal(commands ...string) *Result {
 			gname := load.ShortPkg(gl.Pkg.Pkg.Path()) + "." + gl.Name()
 			key := "pkg " + load.ShortPkg(gl.Pkg.Pkg.Path()) + ":package variable " + gl.Name()
 			pos := c.P.InstrPos(byGlobal[gl][0])
+			if stateful[gl] {
+				if why := c.statefulGlobalUse(gl, byGlobal[gl], reach); why != "" {
+					res.bad(key, pos, fmt.Sprintf("%s holds a buffered reader/writer or buffer that per-file code uses (reachable from %s): %s", gname, fnNames(cbs), why))
+				} else {
+					res.ok(key, pos, fmt.Sprintf("%d use site(s); the object is reset before every use and the code using it is not re-entered", len(byGlobal[gl])))
+				}
+				continue
+			}
 			if how := c.selfCleaning(gl, cbs, reach); how != "" {
 				res.ok(key, pos, fmt.Sprintf("%d store site(s) in per-file code; %s", len(byGlobal[gl]), how))
 				continue
@@ -431,6 +455,72 @@ func fnNames(fns []*ssa.Function) string {
 		ns = append(ns, load.FnName(f))
 	}
 	return strings.Join(ns, ", ")
+}
+
+// statefulGlobalUse judges a buffered object kept in a package variable: every
+// function that touches it resets it first, and no function of a recursive
+// cycle can reach a touching function (a nested use — an include inside an
+// include — would re-target the object under its first user).
+func (c *Ctx) statefulGlobalUse(gl *ssa.Global, sites []ssa.Instruction, reach map[*ssa.Function]*Edge) string {
+	byFn := map[*ssa.Function][]ssa.Instruction{}
+	for _, s := range sites {
+		byFn[s.Parent()] = append(byFn[s.Parent()], s)
+	}
+	isReset := func(in ssa.Instruction) bool {
+		cc := callCommon(in)
+		if cc == nil {
+			return false
+		}
+		f := staticCallee(cc)
+		return f != nil && (f.Name() == "Reset" || f.Name() == "Truncate")
+	}
+	for fn, ss := range byFn {
+		var reset ssa.Instruction
+		for _, s := range ss {
+			if isReset(s) {
+				dom := true
+				for _, o := range ss {
+					if o != s && !instrDominates(s, o) {
+						dom = false
+					}
+				}
+				if dom {
+					reset = s
+				}
+			}
+		}
+		if reset == nil {
+			return fmt.Sprintf("%s uses it without resetting it first (%s): what the previous file left in it is read or appended to", load.FnName(fn), c.P.InstrPos(ss[0]))
+		}
+	}
+	set := map[*ssa.Function]bool{}
+	for fn := range reach {
+		set[fn] = true
+	}
+	g := c.Graph()
+	for _, comp := range c.sccs(set) {
+		sub := g.Reach(comp)
+		for fn := range byFn {
+			if _, ok := sub[fn]; ok {
+				return fmt.Sprintf("%s is reachable from the recursive cycle through %s: a nested use (an include inside an include) re-targets the object while the outer user still reads from it, and the outer file is cut off at the buffer boundary", load.FnName(fn), load.FnName(comp[0]))
+			}
+		}
+	}
+	return ""
+}
+
+// statefulStdlibMethod: a method of a buffered reader / writer / buffer / builder
+// that changes (or depends on) the position or contents the object keeps.
+func statefulStdlibMethod(f *types.Func) bool {
+	switch objPkgPath(f) + "." + recvNamed(f) {
+	case "bufio.Reader", "bufio.Writer", "bufio.Scanner", "bufio.ReadWriter", "bytes.Buffer", "bytes.Reader", "strings.Builder", "strings.Reader":
+		switch f.Name() {
+		case "Size", "Cap", "Available":
+			return false
+		}
+		return true
+	}
+	return false
 }
 
 func rootGlobal(addr ssa.Value) *ssa.Global {
